@@ -370,10 +370,15 @@ def trace_validation(ctx):
     rnd = random.Random(ctx.seed * 89 + 11)
     n = 150 if ctx.tier == 'quick' else 3000
     events = []
+    from astropy.coordinates import FK4, FK5
     frames = ['fk5', 'fk4', 'icrs', 'galactic', 'supergalactic', 'geocentrictrueecliptic']
+    # the region's frame may carry non-default attributes (another equinox): the file names the default frame, so the
+    # coordinates written must be those of the default frame (positions are compared on the sky)
+    variants = {'fk5': [FK5(equinox='J1975'), FK5(equinox='J2010.5')], 'fk4': [FK4(equinox='B1975')]}
     for t in range(n):
-        frame = rnd.choice(frames)
-        coordsys = frame if rnd.random() < 0.7 else rnd.choice(frames)
+        fname = rnd.choice(frames)
+        frame = rnd.choice(variants[fname]) if fname in variants and rnd.random() < 0.4 else fname
+        coordsys = fname if rnd.random() < 0.7 else rnd.choice(frames)
         digits = rnd.randint(3, 9)
         radunit = rnd.choice(['deg', 'arcmin', 'arcsec'])
         regs = []
